@@ -216,7 +216,9 @@ class Outcome:
     def finish(self, *, level="model_checking") -> int:
         wall = time.time() - self.t0
         # growth checks (G..) are not listed properties: their evidence is kept apart from the per-property files
-        ev_dir = os.path.join(ROOT, "evidence") if self.prop.startswith("C") else os.path.join(ROOT, "evidence", "growth")
+        # VERIF_EVIDENCE_DIR: runs against a seeded change (bin/try_mutant, tools/mutant_sweep.py) keep their output away from the evidence of record
+        ev_root = os.environ.get("VERIF_EVIDENCE_DIR") or os.path.join(ROOT, "evidence")
+        ev_dir = ev_root if self.prop.startswith("C") else os.path.join(ev_root, "growth")
         os.makedirs(ev_dir, exist_ok=True)
         replay_paths = []
         seen_sig = set()
